@@ -165,7 +165,10 @@ func vfC09(w *vfWorld) {
 		pts = append(pts, time.Duration(1+t.Choice("c09.rnd", int(3*E/time.Second)))*time.Second)
 	}
 	sort.Slice(pts, func(i, j int) bool { return pts[i] < pts[j] })
-	served := func(r *vfResp) bool { return len(r.UpHits) > 0 }
+	// "honoured" = proxied upstream, or vouched for by the auth-only endpoint, or disclosed by the identity endpoint
+	served := func(r *vfResp) bool {
+		return len(r.UpHits) > 0 || (r.Req != nil && r.Req.Target == pp+"/auth" && r.Status == 202) || (r.Req != nil && r.Req.Target == pp+"/userinfo" && r.Status == 200)
+	}
 	lastIssue := creds[0].Stamped // stamped time of the browser's current credential
 	for _, p := range pts {
 		if d := t0 + p - w.simNow(); d > 0 {
@@ -209,7 +212,7 @@ func vfC09(w *vfWorld) {
 		// 2. replay of every credential ever issued, whatever the browser would do with Max-Age
 		for _, c := range append([]*vfC09Cred(nil), creds...) {
 			hdr := c.Hdr
-			rr := atk.Do(reps[t.Choice("c09.rep", 2)], &vfReq{Method: "GET", Target: "/app/replay", NoJar: true, CookieHdr: &hdr})
+			rr := atk.Do(reps[t.Choice("c09.rep", 2)], &vfReq{Method: "GET", Target: []string{"/app/replay", "/app/replay", pp + "/auth", pp + "/userinfo"}[t.Choice("c09.replay-endpoint", 4)], NoJar: true, CookieHdr: &hdr})
 			cs.Presentations++
 			age := w.simNow() - c.Stamped
 			if age >= E+time.Second && served(rr) {
